@@ -3,7 +3,7 @@ run in their own process, so a crash of the host process is an observation (C11)
 import json
 import sys
 
-sys.path[:0] = ['/verif', '/repo']
+sys.path[:0] = ['/verif', __import__('os').environ.get('VERIF_REPO', '/repo')]
 
 
 def main() -> None:
